@@ -161,10 +161,21 @@ def make_logic(ctl: Ctl, actions: List[str], guards: List[str], services=None, d
                 ctl.pending[:] = [p for p in ctl.pending if p[2] is not fut]
         return svc
 
+    def mk_plain(name: str, fails: bool):
+        # a plain (non-coroutine) callable: it has returned / raised by the time its task first runs
+        def plain(interp, ctx, event):
+            ctl.emit("svc_called", name, event.type)
+            if fails:
+                raise RuntimeError("planned failure of plain service " + name)
+            return "ok:" + name
+        return plain
+
     services = dict(services or {})
     for sname in list(services):
         if services[sname] == "driver":
             services[sname] = mk_service(sname)
+        elif services[sname] in ("ok", "fail"):
+            services[sname] = mk_plain(sname, services[sname] == "fail")
 
     return MachineLogic(
         actions={a: (mk_slow(a) if a.startswith("slow:") else mk_action(a)) for a in actions},
